@@ -219,6 +219,26 @@ fn kinds<W: Write>(_t: &Tables, thorough: bool, rng: &mut Rng, out: &mut W) {
     } } }
     // all isotopes and maps on one symbol
     for n in 0..1000 { writeln!(out, "KTXT [{},E5,_,_,_,{}]", n, 999 - n).unwrap() }
+    // every field present: the cross product of the narrowest and widest spellings of each field (one to three digit
+    // isotope and map, one and two letter symbols, @ / @@ / two-digit TB and OH, H / Hn, + / ++ / two-digit charges)
+    let isos = [0usize, 9, 10, 99, 100, 999];
+    let full_syms = ["*", "E5", "E0", "E117", "E64", "E25", "R1", "R6", "R7"];
+    let full_cfgs = [55usize, 56, 0, 1, 34, 35, 43, 44, 54, 2, 10, 11, 31];
+    let full_hs = [0usize, 1, 2, 9];
+    let full_qs = [1i32, -1, 2, -2, 9, 10, -10, 15, -15];
+    if thorough {
+        for iso in isos.iter() { for sym in full_syms.iter() { for cfg in full_cfgs.iter() { for h in full_hs.iter() { for q in full_qs.iter() { for m in isos.iter() {
+            writeln!(out, "KTXT [{},{},{},{},{},{}]", iso, sym, cfg, h, q, m).unwrap();
+        } } } } } }
+    } else {
+        // the widest corner in full, and a sample of the rest
+        for iso in [100usize, 999].iter() { for sym in ["E117", "E64", "E25", "R6", "R7"].iter() { for cfg in [44usize, 54, 11, 31].iter() { for h in [2usize, 9].iter() { for q in [10i32, -10, 15, -15].iter() { for m in [100usize, 999].iter() {
+            writeln!(out, "KTXT [{},{},{},{},{},{}]", iso, sym, cfg, h, q, m).unwrap();
+        } } } } } }
+        for _ in 0..6000 {
+            writeln!(out, "KTXT [{},{},{},{},{},{}]", rng.pick(&isos), rng.pick(&full_syms), rng.pick(&full_cfgs), rng.pick(&full_hs), rng.pick(&full_qs), rng.pick(&isos)).unwrap();
+        }
+    }
     let n = if thorough { 300000 } else { 20000 };
     for _ in 0..n { writeln!(out, "KTXT {}", rand_bracket(rng, false)).unwrap() }
 }
@@ -753,6 +773,26 @@ fn val<W: Write>(_t: &Tables, thorough: bool, rng: &mut Rng, out: &mut W) {
     for i in 0..6 { for sum in 0..=600usize { writeln!(out, "VAL a{} {}", i, if sum == 0 { "-".to_string() } else { format!("5*{}", sum) }).unwrap() } }
     for sum in [0usize, 1, 255, 256, 1000, 20000] { writeln!(out, "VAL * {}", if sum == 0 { "-".to_string() } else { format!("3*{}", sum) }).unwrap() }
     for b in 0..8 { writeln!(out, "VAL A1 {}*1", b).unwrap(); writeln!(out, "VAL A1 {}*64", b).unwrap() }
+    // the byte boundary approached with every bond order and every hydrogen count: k bonds of one kind (kinds 1..4 have
+    // orders 1..4) with k*order + h in 240..=270, the same with a few bonds of another order mixed in, and bond counts
+    // around 63/64, 85, 127/128 and 255/256 whatever the sum
+    for sym in ["E5", "E6", "E15", "*", "R1"].iter() { for h in hs.iter() {
+        let hv: usize = h.parse().unwrap_or(0);
+        for order in 1..=4usize {
+            for k in 0..=300usize {
+                let total = k * order + hv;
+                let near_sum = (240..=270).contains(&total);
+                let near_count = [62usize, 63, 64, 65, 84, 85, 86, 127, 128, 129, 254, 255, 256, 257].contains(&k);
+                if !(near_sum || near_count) || k == 0 { continue }
+                writeln!(out, "VAL [_,{},_,{},_,_] {}*{}", sym, h, order, k).unwrap();
+                if near_sum && order > 1 { writeln!(out, "VAL [_,{},_,{},_,_] {}*{},1*{}", sym, h, order, k, (order + 1) / 2).unwrap() }
+            }
+        }
+    } }
+    for kind in ["A1", "A4", "A5", "a1", "a5", "*"].iter() { for order in 1..=4usize { for k in 55..=70usize {
+        writeln!(out, "VAL {} {}*{}", kind, order, k).unwrap();
+        writeln!(out, "VAL {} {}*{}", kind, order, k * 4 / order).unwrap();
+    } } }
     // debracket: every symbol x hcount x bond-order sum that fits a byte x presence of each other field
     for sym in syms.iter() { for h in hs.iter() {
         let hv: usize = h.parse().unwrap_or(0);
@@ -794,6 +834,22 @@ pub fn family(name: &str, n: usize) -> String {
         "comb" => { let mut s = String::new(); for _ in 0..n / 2 { s.push_str("C(N)") } s.push('O'); s }
         "ringtail" => { let mut s = "C".repeat(n.saturating_sub(6)); s.push_str("C=1CCC(C/%12)C=1.C\\%12"); s }
         "bondchain" => { let mut s = String::from("C"); for i in 1..n { s.push_str(["=C", "-C", "#C", "C"][i % 4]) } s }
+        "singlechain" => { let mut s = String::from("C"); for _ in 1..n { s.push_str("-C") } s }
+        "dirchain" => { let mut s = String::from("C"); for i in 1..n { s.push_str(if i % 2 == 1 { "/C" } else { "=C" }) } s }
+        // two ring closures open at the same time whose atom ids straddle 16 bits: 1-5 (opened at atom 5, closed at atom 1
+        // after its branch) and 0-(n-1) (opened at the last atom, closed at atom 0 after its branch)
+        "farrings" => { let mut s = String::from("C(C(CCCC2"); for _ in 0..n.saturating_sub(7) { s.push('C') } s.push_str("C1)2)1"); s }
+        // the same with the inner ring between atom 1 and atom j = (n - 1) mod 2^16: the two open pairs (0, n-1) and (1, j)
+        // differ exactly by a carry across 16 bits (n = 65542 gives the pairs 0-65541 and 1-5)
+        "straddle" => {
+            let j = ((n - 1) & 0xffff).max(3).min(n - 3);
+            let mut s = String::from("C(C(");
+            for _ in 0..j - 2 { s.push('C') }
+            s.push_str("C2");
+            for _ in 0..n - 2 - j { s.push('C') }
+            s.push_str("C1)2)1");
+            s
+        }
         "nested" => { let mut s = String::from("C"); for _ in 1..n { s.push_str("(C") } for _ in 1..n { s.push(')') } s }
         "nested2" => { let mut s = String::new(); for _ in 0..n { s.push_str("C(C)(") } s.push('C'); for _ in 0..n { s.push(')') } s }
         _ => String::new(),
